@@ -626,17 +626,6 @@ def execute_contract(sc):
         runs += 1
         if o.Y is not None and o.info.get('stop') == 'e' and not (0 <= o.info.get('e', -1) <= 0.0):
             V.append(viol('stop', 'stop=e with info[e]=%r > e=0' % o.info.get('e')))
-        if o.Y is not None and o.mon.snaps:
-            # info[e] is the distance to the previous sweep
-            last = o.mon.snaps[-1]
-            prev = o.mon.snaps[-2]['Y'] if len(o.mon.snaps) >= 2 else Y0
-            from sim.util import tt_full
-            a, b = tt_full(o.Y), tt_full(prev)
-            nb = np.linalg.norm(b)
-            if nb > 0:
-                refe = np.linalg.norm(a - b) / nb
-                if abs(o.info.get('e', -1) - refe) > 1e-7 + 1e-5 * refe:
-                    V.append(viol('info-e', 'info[e]=%r, distance to the previous sweep is %r' % (o.info.get('e'), refe)))
     elif cl == 'stop_e_vld':
         g = gen(sc['dseed'] + 5)
         Iv = np.stack([g.integers(0, k, 6) for k in n], axis=1)
